@@ -151,11 +151,31 @@ Inductive cstep :=
 | CAsk (q : question)
        (script : list (N * list up_reply))      (* per source code (0xFD as-is, i upstream): replies by query number *)
        (impl_out : N) (impl_ans : list rr)      (* 0 + answer section, or 1000+class *)
-       (impl_asked : list N)                    (* source codes of the upstream queries, in order *)
+       (impl_asked : list N)                    (* source codes of the upstreams chosen for the queries (BestDialerChooser calls), in order *)
+       (impl_built : list N)                    (* source codes of the upstreams the forwarders that carried the queries were created for *)
        (impl_cache : list centry)               (* cache dump afterwards *)
 | CReload (cfg : config).                       (* new rules, same upstreams, cache kept *)
 
-Record ccase := { cc_cfg : config; cc_steps : list cstep }.
+(* identity of the sources (253 as-is, i upstream) and the dial argument the harness's chooser returns for them *)
+Record ccase := { cc_cfg : config; cc_ids : list (N * (uid * dialarg)); cc_steps : list cstep }.
+
+Definition id_of (ids : list (N * (uid * dialarg))) (c : N) : option (uid * dialarg) :=
+  option_map snd (find (fun e => fst e =? c) ids).
+Fixpoint fsteps_of (ids : list (N * (uid * dialarg))) (a : answers) (l : list src) (k : nat) : option (list fstep) :=
+  match l with
+  | [] => Some []
+  | s :: rest =>
+    match id_of ids (src_code s), fsteps_of ids a rest (S k) with
+    | Some (u, d), Some r => Some ({| fs_u := u; fs_d := d; fs_fail := match a s k with UFail => true | _ => false end |} :: r)
+    | _, _ => None
+    end
+  end.
+Fixpoint built_matches (ids : list (N * (uid * dialarg))) (codes : list N) (us : list uid) : bool :=
+  match codes, us with
+  | [], [] => true
+  | c :: cs, u :: r => match id_of ids c with Some (u', _) => uid_same u' u | None => false end && built_matches ids cs r
+  | _, _ => false
+  end.
 
 (* the bitmap a correct domain matcher returns (C11 interface, as a function): bit i = some set registered under i holds.
    The controller harness cannot reach the matchers' bitmaps (unexported fields of another package). *)
@@ -185,13 +205,16 @@ Definition mres_ans (r : res (list rr)) : list rr := match r with Ok a => a | Er
 (* error codes (step, code): 11 outcome impl<>model  12 outcome impl<>spec  13 outcome model<>spec
                              21 asked impl<>model    22 asked impl<>spec
                              31 cache impl<>model    32 cache impl<>spec
+                             51 forwarder built-for impl<>model  52 impl<>spec (a query left through a forwarder created for
+                                another upstream than the chosen one)  53 model<>spec  50 unknown source
                              41 a rejected question got a non-empty answer or left an entry of its family (impl)
                              42 more upstream queries than MaxDnsLookupDepth (impl)   6 dns.New failed in the model *)
-Fixpoint check_steps (cfg : config) (d : res dns) (mc sc : cache) (steps : list cstep) (n : N) : list (N * N) :=
+Fixpoint check_steps (ids : list (N * (uid * dialarg))) (cfg : config) (d : res dns) (mc sc : cache) (fc : fcache)
+         (steps : list cstep) (n : N) : list (N * N) :=
   match steps with
   | [] => []
-  | CReload cfg' :: rest => check_steps cfg' (dns_new cfg') mc sc rest (n + 1)
-  | CAsk q script iout ians iasked icache :: rest =>
+  | CReload cfg' :: rest => check_steps ids cfg' (dns_new cfg') mc sc fc rest (n + 1)
+  | CAsk q script iout ians iasked ibuilt icache :: rest =>
     match d with
     | Err _ => [(n, 6)]
     | Ok dd =>
@@ -203,6 +226,16 @@ Fixpoint check_steps (cfg : config) (d : res dns) (mc sc : cache) (steps : list 
       let asked_m := map src_code ml in
       let asked_s := map src_code sl in
       let rejected := match request_route cfg q with Some QReject => true | _ => false end in
+      let mf := fsteps_of ids a ml 0 in
+      let sf := fsteps_of ids a sl 0 in
+      let '(mbuilt, fc') := match mf with Some h => run_forward fc h | None => ([], fc) end in
+      (match mf, sf with
+       | Some _, Some sh =>
+         (if built_matches ids ibuilt mbuilt then [] else [(n, 51)])
+         ++ (if built_matches ids ibuilt (map fs_u sh) then [] else [(n, 52)])
+         ++ (if carried_ok (map fs_u sh) mbuilt then [] else [(n, 53)])
+       | _, _ => [(n, 50)]
+       end) ++
       (if (mres_code mr =? iout) && list_eqb rr_eqb (mres_ans mr) ians then [] else [(n, 11)])
       ++ (if (cls (outcome_code so) =? cls iout) && list_eqb rr_eqb (outcome_ans so) ians then [] else [(n, 12)])
       ++ (if (cls (mres_code mr) =? cls (outcome_code so)) && list_eqb rr_eqb (mres_ans mr) (outcome_ans so) then [] else [(n, 13)])
@@ -213,19 +246,19 @@ Fixpoint check_steps (cfg : config) (d : res dns) (mc sc : cache) (steps : list 
       ++ (if rejected && negb ((iout =? 0) && (Nat.eqb (List.length ians) 0) && (Nat.eqb (List.length iasked) 0)
                                && negb (existsb (same_family q) icache)) then [(n, 41)] else [])
       ++ (if N.of_nat (List.length iasked) <=? MaxDnsLookupDepth then [] else [(n, 42)])
-      ++ check_steps cfg d mc' sc' rest (n + 1)
+      ++ check_steps ids cfg d mc' sc' fc' rest (n + 1)
     end
   end.
 
 Definition check_ccase (c : ccase) : list (N * N) :=
-  (if wf_config (cc_cfg c) then [] else [(0, 7)]) ++ check_steps (cc_cfg c) (dns_new (cc_cfg c)) [] [] (cc_steps c) 0.
+  (if wf_config (cc_cfg c) then [] else [(0, 7)]) ++ check_steps (cc_ids c) (cc_cfg c) (dns_new (cc_cfg c)) [] [] [] (cc_steps c) 0.
 
 (* signature: (#rejected asks, #cache hits, #asks with 1 query, #with 2, #with 3, #too deep) in the spec's reading *)
 Fixpoint csig_steps (cfg : config) (sc : cache) (steps : list cstep) (acc : N * N * N * N * N * N) : N * N * N * N * N * N :=
   match steps with
   | [] => acc
   | CReload cfg' :: rest => csig_steps cfg' sc rest acc
-  | CAsk q script _ _ _ _ :: rest =>
+  | CAsk q script _ _ _ _ _ :: rest =>
     let '(so, sl, sc') := answer_question (N.to_nat MaxDnsLookupDepth) cfg sc q (answers_of script) in
     let '(a, b, c1, c2, c3, dd) := acc in
     let rejected := match request_route cfg q with Some QReject => true | _ => false end in
